@@ -134,6 +134,9 @@ def maps(ctx, out):
             try:
                 ts, idx = be.timestamp_at_tick(tick)
                 i = f"{ts // US} {idx}"
+                ts2 = be.timestamp_at_tick_no_optimize_return(tick)
+                if ts2 != ts:
+                    i = f"{ts2 // US} {idx}"  # the un-hinted public query is an observation point of its own
             except Exception as e:  # noqa: BLE001
                 i = impl.err_name(e)
         out.case(fw.h([res, tempo, tick]), g >= 1, {"res": res, "tempo": tempo[:4], "tick": tick, "impl": i} if g >= 1 else None,
